@@ -2734,7 +2734,14 @@ impl FunctionCompiler<'_> {
                 self.builder.switch_to_block(test_block);
                 self.builder.seal_block(test_block);
 
-                for (idx, member) in members.iter().enumerate() {
+                // zero-sized members are always equal, and there's nothing to load for them
+                let members: Vec<_> = members
+                    .iter()
+                    .enumerate()
+                    .filter(|(_, member)| !member.ty.is_zero_sized())
+                    .collect();
+
+                for (pos, (idx, member)) in members.iter().copied().enumerate() {
                     let offset = struct_layout.offsets()[idx];
 
                     let lhs_addr = self.builder.ins().iadd_imm(lhs, offset as i64);
@@ -2757,7 +2764,7 @@ impl FunctionCompiler<'_> {
                         unreachable!("shouldn't have gotten this far");
                     };
 
-                    if idx < members.len() - 1 {
+                    if pos < members.len() - 1 {
                         let next_test_block = self.builder.create_block();
                         self.func_writer[next_test_block] =
                             format!("array_cmp_next_idx{}", idx + 1).into();
